@@ -799,6 +799,8 @@ def r07_11(ctx, g):
                 gds = [canon_test(t, pol) for t, pol in guards_of(rg.node, st)]
                 if (targ.id, False) in gds or (f"len({targ.id}) == 0", True) in gds:
                     t0 = "[0]"
+            elif isinstance(st, ast.Assign) and norm(st.targets[0]) == targ.id and isinstance(st.value, ast.BoolOp) and isinstance(st.value.op, ast.Or) and len(st.value.values) == 2 and norm(st.value.values[0]) == targ.id and norm(st.value.values[1]) == "[0]":
+                t0 = "[0]"  # e_tags = e_tags or [0]
             elif isinstance(st, ast.Assign) and norm(st.targets[0]) == targ.id and isinstance(st.value, (ast.Name, ast.Constant, ast.Tuple)) and norm(st.value) not in ("[]",):
                 raise AnalysisError("R07.11", rg.where(st), f"the reader stands `{norm(st.value)[:40]}` in for the tags of a link: what the writer makes of that placeholder is not read by this rule")
     # does add_edge store T0?
